@@ -1,7 +1,8 @@
 (* C08 After a failure the lexer resumes past the bad text, in Init, and stays there. *)
 From LexVerif Require Import Base CharClass RangeMap Regex Spec SpecExec LexSpec Nfa Dfa NfaToDfa NfaSem Codegen
      Runtime ScanIface RulesetSem Driver SpecDef ClassAlgProofs RuntimeProofs RuntimeLemmas ScanOkProofs
-     RulesetSemProofs LexSpecProofs LexSpecFacts EndToEnd Harness.
+     RulesetSemProofs LexSpecProofs LexSpecFacts EndToEnd EndToEndModel Instance Harness.
+From LexVerif.Gen Require Import GenTables GenConsts.
 
 Theorem c08_state_after_failure : forall (benv : builtin_env) (width : N -> N) (tab_width : N) (T E U : Type)
     (rss : list (list crule)) (actions : nat -> action T E U) (s : sstate U) l s',
